@@ -434,4 +434,38 @@ example :
       [.signal true, .fwdBwd 2, .step, .optZeroGrad, .signal false, .fwdBwd 1, .step, .optZeroGrad]).log
       = [[0, 1, 2]] := by decide
 
+/-- **Accumulated gradients are dropped by nothing but their release.**  Whatever has been clipped and
+summed into `p.summed_grad` for the current logical batch stays there under every operation that is
+neither `optimizer.step()` nor a clearing after a release: `module.zero_grad()`, skip signals, scheduler
+writes, a new backward pass – and `optimizer.zero_grad()` (also the one inside the ghost-clipping
+backward) while the last step was a skipped one. -/
+theorem accumulated_kept (c : Cfg) (s : St) (o : Op) (hstep : o ≠ .step)
+    (hclear : s.lastSkipped = true ∨ (o ≠ .optZeroGrad ∧ (c.kind = .ghost → ∀ n, o ≠ .fwdBwd n))) :
+    (stepOp c s o).1.summed = s.summed := by
+  cases o with
+  | step => exact absurd rfl hstep
+  | signal b => rfl
+  | setSigma v => rfl
+  | setClip v => rfl
+  | modZeroGrad => rfl
+  | optZeroGrad =>
+    rcases hclear with h | ⟨h, _⟩
+    · simp [stepOp, optZero, h]
+    · exact absurd rfl h
+  | fwdBwd n =>
+    cases hk : c.kind with
+    | std =>
+      simp only [stepOp, hk]
+      split <;> rfl
+    | ghost =>
+      rcases hclear with h | ⟨_, h⟩
+      · simp [stepOp, hk, optZero, h]
+      · exact absurd rfl (h hk n)
+
+/-- premises satisfiable: a skipped step has accumulated two samples; `module.zero_grad()` keeps them -/
+example :
+    let c : Cfg := ⟨.std, true, false⟩
+    let s := run c (init 1 1) [.signal true, .fwdBwd 2, .step]
+    s.summed = some ⟨[0, 1], false⟩ ∧ (stepOp c s .modZeroGrad).1.summed = s.summed := by decide
+
 end Opacus.C11
